@@ -626,6 +626,9 @@ func C05(tier rt.Tier) int {
 	agg := &crashStats{}
 	var runs []roundCfg
 	per := 30 * time.Second
+	if tier == rt.Thorough {
+		per = 5 * time.Minute
+	}
 	if tier == rt.Quick {
 		runs = []roundCfg{
 			{name: "prefixfree-3rounds", paths: pfPaths[:3], vals: []string{"x"}, rounds: 3, txnOps: 1, maxTxns: 3, depth: 9, c05: true},
@@ -635,7 +638,6 @@ func C05(tier rt.Tier) int {
 			{name: "idle-rounds-4", paths: pfPaths[:2], vals: []string{"x", "y"}, rounds: 4, txnOps: 1, maxTxns: 1, depth: 11, c05: true, skipEmptyRecords: true},
 		}
 	} else {
-		per = 8 * time.Minute
 		runs = []roundCfg{
 			{name: "prefixfree-4rounds", paths: pfPaths[:4], vals: []string{"x"}, rounds: 4, txnOps: 1, maxTxns: 3, depth: 14, c05: true},
 			{name: "nested-3rounds", paths: nestedRound, vals: []string{"x", "y"}, rounds: 3, txnOps: 2, maxTxns: 3, depth: 12, c05: true},
